@@ -787,6 +787,23 @@ tokenize_rule (const DBusString *rule_text,
       ++i;
     }
 
+  if (pos < _dbus_string_get_length (rule_text))
+    {
+      /* We ran out of room for tokens. Only trailing whitespace may be
+       * left over, anything else would be silently ignored. */
+      if (!find_key (rule_text, pos, &key, &pos, error))
+        goto out;
+
+      if (_dbus_string_get_length (&key) != 0 ||
+          pos < _dbus_string_get_length (rule_text))
+        {
+          dbus_set_error (error, DBUS_ERROR_MATCH_RULE_INVALID,
+                          "Match rule has more than %d key/value pairs",
+                          MAX_RULE_TOKENS);
+          goto out;
+        }
+    }
+
   retval = TRUE;
   
  out:
